@@ -738,7 +738,7 @@ func (f *treeBuilderVisitor) deferInfo(fieldRef int) *DeferInfo {
 	}
 
 	labelValue, exists := f.operation.DirectiveArgumentValueByName(deferDirectiveRef, []byte("label"))
-	if exists {
+	if exists && labelValue.Kind == ast.ValueKindString {
 		info.Label = f.operation.StringValueContentString(labelValue.Ref)
 	}
 
